@@ -14,7 +14,7 @@ Writes seeded/<id>/{patch.diff, demo.rs, notes.md, meta.json}.
 import json, os, shutil, subprocess, sys, tempfile, time
 
 ROOT = os.path.dirname(os.path.dirname(os.path.abspath(__file__)))
-ENV = dict(os.environ, CARGO_NET_OFFLINE="true", CARGO_TARGET_DIR="/tmp/confirm_target")
+ENV = dict(os.environ, CARGO_NET_OFFLINE="true", CARGO_TARGET_DIR=os.environ.get("CONFIRM_TARGET","/tmp/confirm_target"))
 
 
 def sh(cmd, cwd=None, timeout=3600):
@@ -36,7 +36,7 @@ def main():
         os.makedirs(tdir, exist_ok=True)
         tname = "seed_demo_" + sid.lower().replace("-", "_")
         shutil.copy(os.path.join(src, "demo.rs"), os.path.join(tdir, tname + ".rs"))
-        f = "" if feats == "-" else "--features " + feats
+        f = "" if feats == "-" else ("--no-default-features" if feats == "nodefault" else "--features " + feats)
         demo_cmd = "cargo test --offline -p retrofire-%s %s --test %s" % (pkg, f, tname)
         rc, out = sh(demo_cmd, cwd=wt)
         meta["demo_unchanged"] = "pass" if rc == 0 else "FAIL"
